@@ -104,7 +104,8 @@ def search(res, tier, boost=False):
     # and fine meshes of one hierarchy are combined).  Straight sides only; the reference is the closed-form path of
     # the code (validated against the independent numeric reference above), the subject is the quadrature path.  On the
     # shipped code the two agree to 2.2e-9 * scale up to 6 levels (1.6e-8 at 7, 1.6e-7 at 8: beyond the quantifier).
-    times = [(0.0, 1.0), (0.0, 0.5), (0.5, 1.0), (0.25, 0.5), (0.5, 0.75), (0.0, 0.25), (0.75, 1.0)]
+    times = [(0.0, 1.0), (0.0, 0.5), (0.5, 1.0), (0.25, 0.5), (0.5, 0.75), (0.0, 0.25), (0.75, 1.0),
+             (0.25, 0.75), (0.5, 1.5), (0.125, 0.625)]   # the last three: staggered against the others (elements of two time grids)
     for cname in ('UnitSquare', 'LShape') if tier == 'quick' and not boost else ('UnitSquare', 'LShape', 'PiSquare', 'UnitInterval'):
         gamma = make_curve(cname)
         import contextlib
